@@ -356,6 +356,8 @@ func constEq(a, b *T) bool {
 	return false
 }
 
+const wsRe = `(re.* (re.union (str.to_re " ") (str.to_re "\u{9}") (str.to_re "\u{a}") (str.to_re "\u{b}") (str.to_re "\u{c}") (str.to_re "\u{d}")))`
+
 type lenProf struct {
 	n   int
 	sym string
@@ -421,6 +423,13 @@ func Eq(a, b *T) *T {
 		}
 	}
 	if a.Sort.K == SStr {
+		// strings.TrimSpace(s) == "" iff s consists of ASCII whitespace only
+		if a.Op == "uf" && a.Name == "trimspace" && b.IsConst() && b.Str == "" {
+			return InRe(a.Args[0], wsRe)
+		}
+		if b.Op == "uf" && b.Name == "trimspace" && a.IsConst() && a.Str == "" {
+			return InRe(b.Args[0], wsRe)
+		}
 		// differing constant prefixes decide disequality syntactically
 		pa, wa := constPrefix(a)
 		pb, wb := constPrefix(b)
